@@ -220,7 +220,10 @@ def main():
         "checks": checks,
         "not_applicable": [{"property_id": p, "reason": NOT_YET} for p in props if p not in CHECKS],
         "notes": "All checks: exit 0 held / 1 VIOLATION / 2 harness error. VERIF_SEED seeds every random choice. "
-                 "VERIF_REPO (default /repo) selects the tree under test.",
+                 "VERIF_REPO (default /repo) selects the tree under test. The level texts name each check's core domains; the "
+                 "generator dimensions added while testing the checks against 247 seeded changes (whole code space, source-literal "
+                 "dictionary, interpreter configurations, validation routes, foreign and other-class objects, aged processes, "
+                 "two-point schedules, hostile registries, ...) are listed in DESIGN.md sections 11.6-11.17.",
     }
     with open(os.path.join(HERE, "MANIFEST.json"), "w") as fp:
         json.dump(manifest, fp, indent=1)
